@@ -73,6 +73,9 @@ func genUintNBiased(s bitStream, max uint64) (uint64, bool, bool) {
 	} else if int(n) >= 64-(16-int(m))*4 {
 		bitlen = 65
 	}
+	if verifOn {
+		verifEmit("width", "max", max, "maxlen", bits.Len64(max), "n", n, "chosen", bitlen)
+	}
 
 	for {
 		i := s.beginGroup(intBitsLabel, false)
@@ -152,6 +155,9 @@ func flipBiasedCoin(s bitStream, p float64) bool {
 
 	i := s.beginGroup(coinFlipLabel, false)
 	f := genFloat01(s)
+	if verifOn {
+		verifEmit("coin", "p", p, "f", f, "res", f >= 1-p)
+	}
 	s.endGroup(i, false)
 
 	return f >= 1-p
@@ -251,6 +257,9 @@ func (r *repeat) more(s bitStream) bool {
 	}
 
 	cont := flipBiasedCoin(s, pCont)
+	if verifOn {
+		verifEmit("repeat.more", "label", r.label, "min", r.minCount, "max", r.maxCount, "count", r.count, "rejections", r.rejections, "force", r.forceStop, "pCont", pCont, "cont", cont)
+	}
 	if cont {
 		r.count++
 	} else {
@@ -265,6 +274,9 @@ func (r *repeat) reject() {
 	r.count--
 	r.rejected = true
 	r.rejections++
+	if verifOn {
+		verifEmit("repeat.reject", "label", r.label, "min", r.minCount, "count", r.count, "rejections", r.rejections)
+	}
 
 	if r.rejections > r.count*2 {
 		if r.count >= r.minCount {
